@@ -167,6 +167,8 @@ func (g *Gen) havocLoop(l *Loop, head *State, entrySt *State) {
 						ks := g.L.CellSort(mt.Key())
 						g.mapVis(head, ks)
 						rawHeaps[g.visName(ks)] = true
+						g.rawHeap(head, "M_nvis", "(Array Int Int)")
+						rawHeaps["M_nvis"] = true
 					}
 				}
 			case *ssa.MapUpdate:
